@@ -131,7 +131,7 @@ PROPS = {
         components=["PGRotateTo", "PGRotateFrom", "PGScaleFrom", "PGScaleToGeom", "PGScaleToNormals"],
         extra_suites=[suites.compressible_pipeline_suite],
         assumptions=["the wiring of compressible_states.py is tied twice: by the model pipeline CompressibleStates (compared with the real "
-                     "AeroPoint(compressible=True) without rotation rates) and by the real-code oracle (PG specification around the real "
+                     "AeroPoint(compressible=True), rotation rates included) and by the real-code oracle (PG specification around the real "
                      "incompressible solver)", "continuity of the linear solve in its data is assumed"],
     ),
     "C19": dict(
